@@ -382,6 +382,38 @@ def fault_scenarios(rng, n, exhaustive=False):
     rng.shuffle(out)
     return out[:n]
 
+def gen_backlog(rng):
+    """corner cases of the backlog FIFO invariant: two or three registrations of ONE endpoint (tokens 1..3, CON and NON mixed) share its
+    backlog; bursts of triggers while a CON notification is unacknowledged so that later ones queue behind it; then ACK / RST / time
+    / re-registration / deregistration / transport error in random order while the queue is non-empty"""
+    ev = []; mid = [0]; keys = []; kk = [0]
+    def req(tok, con, obs):
+        mid[0] += 1; ev.append(["req", 1, con, mid[0], tok, obs])
+        if obs == 0 and (1, tok) not in keys: keys.append((1, tok))
+    for tok in rng.sample([1, 2, 3], rng.choice([2, 2, 3])): req(tok, rng.random() < 0.8, 0)
+    if rng.random() < 0.3: req(rng.choice([1, 2]), True, 0) if False else ev.append(["req", 2, True, 90, 1, 0])     # sometimes a second endpoint as well
+    def trig():
+        n = rng.choice([1, 1, 2, 3]); burst = []
+        for _ in range(n):
+            kk[0] += 1; x = rng.random()
+            burst.append(["render", 0, False, 0] if x < 0.75 else (["resp", 69, False, kk[0]] if x < 0.95 else ["resp", 69, True, kk[0]]))
+        ev.append(["trig", [rng.randint(0, 3) for _ in range(rng.choice([0, 1, 2]))], burst])
+    for _ in range(rng.randint(2, 5)): trig()                     # nothing acknowledged yet: one exchange in flight, the rest queued
+    for _ in range(rng.randint(4, 16)):
+        x = rng.random()
+        if x < 0.35: ev.append(["ack", 1, 0])
+        elif x < 0.5: trig()
+        elif x < 0.58: ev.append(["rst", 1, 0])
+        elif x < 0.66: (kr, kt) = rng.choice(keys); req(kt, rng.random() < 0.7, rng.choice([0, 0, 1, None]))
+        elif x < 0.72: ev.append(["adv", rng.choice([2_000_000, 6_000_000, 62_000_000])])
+        elif x < 0.76: ev.append(["err", 1])
+        elif x < 0.82: ev.append(["gate", rng.random() < 0.5])
+        elif x < 0.9: (kr, kt) = rng.choice(keys); ev.append(["done", kr, kt])
+        else: ev.append(["ack", 1, rng.choice([1, 2])])
+    settled = rng.random() < 0.6
+    if settled: ev += epilogue(keys + [(2, 1)], [1, 2])
+    return {"mid0": rng.choice([0, 65530]), "events": ev, "settled": settled}
+
 def gen_shared(rng):
     """resource.updated_state(response) with one Message object for all observers (F17, fixed by e47f5b3: each observer gets a copy)"""
     nobs = rng.choice([1, 2, 2, 3]); ev = []; keys = []
@@ -590,7 +622,9 @@ class C08(fw.Property):
     rule = ("streams: script = structured random observer scripts (1-3 endpoints, CON/NON registrations, trigger bursts incl. explicit / "
             "unsuccessful / last responses, ACK or RST of the newest or an older message, silence (time steps around 0.1 s, 2 s, 62 s, 247 s), "
             "re-register / deregister / plain request / duplicate on the same token, slow renders released later, failing renders, transport "
-            "error, shutdown) plus a friendly exchange with one fault inserted at every position, through the real stack vs Model/C08.run_script; "
+            "error, shutdown) plus a friendly exchange with one fault inserted at every position, plus backlog scenarios (2-3 registrations of one "
+            "endpoint sharing its backlog, trigger bursts while a CON notification is unacknowledged, then ACK/RST/time/re-registration/error), "
+            "through the real stack vs Model/C08.run_script; "
             "real_set = same with the unmodified set of observers (oracle only); shared_response = resource.updated_state(response) with one "
             "Message object for several observers (modelled: every observer gets its own copy, as since fix e47f5b3); adversarial = scripts with junk / unsolicited datagrams injected (oracle only). Non-trivial = at least one "
             "accepted registration, one notification with Observe > 0 and one ended registration; distinct by full input.")
@@ -607,16 +641,18 @@ class C08(fw.Property):
                   "wire statement); each listed cause ends the registration (same-token request, Reset of a confirmable notification, unsuccessful / last "
                   "notification, raising render, time-out, transport error, shutdown), with the Reset-of-NON case refuted by a witness (F15). The model is "
                   "tied to the code by a differential run of the real stack on scripted observer behaviour with complete traces compared.")
-    level_note = ("PARTIAL: rising Observe numbers / token and 'latest state sent' are proved for the notification loop's code (one pass, the lossy trigger "
-                  "future), not as invariants over histories on the wire; over histories they are checked by the oracle and the trace correspondence only. "
-                  "Time-out is stated for the firing of the last retransmission timer, not derived from EAdvance. Not modelled: task garbage collection, "
+    level_note = ("Token and strictly rising Observe numbers on the wire are proved over all histories (backlog FIFO invariant). PARTIAL: 'latest state "
+                  "sent' is proved for the lossy trigger future only, over histories it is checked by the oracle (C08:latest-not-sent) and the trace "
+                  "correspondence. Time-out is stated for the firing of the last retransmission timer, not derived from EAdvance. Not modelled: task garbage collection, "
                   "No-Response, block-wise, multicast; observers are triggered in a script-chosen order. Trusted: the model's correspondence (sampled), virtual loop, harness codec.")
 
     # ------------------------------------------------------------------ generators (every choice from rng)
     def gen_cases(self, tier, rng, n):
-        n_fault = n // 5; n_shared = max(4, n // 25); n_real = max(4, n // 25); n_adv = max(4, n // 25)
-        for k in range(n - n_fault - n_shared - n_real - n_adv):
+        n_fault = n // 5; n_shared = max(4, n // 25); n_real = max(4, n // 25); n_adv = max(4, n // 25); n_back = n // 6
+        for k in range(n - n_fault - n_shared - n_real - n_adv - n_back):
             yield "script", gen_script(rng)
+        for k in range(n_back):
+            yield "script", gen_backlog(rng)
         for inp in fault_scenarios(rng, n_fault, exhaustive=(tier == "thorough")):
             yield "script", inp
         for k in range(n_real):
